@@ -178,7 +178,7 @@ def loop_bounds(ob, cfile, info=None):
 def cbmc_cmd(ob, cfile, extra=(), info=None):
     cmd = list(CBMC_BASE)
     cmd += ['--unwind', str(ob.get('unwind', 4))]
-    if ob.get('unwinding_assertions', False):
+    if ob.get('unwinding_assertions', False) or ob.get('unwind_assert_fn'):
         cmd += ['--unwinding-assertions']
     else:
         cmd += ['--no-unwinding-assertions']
@@ -297,6 +297,11 @@ def _run_obligation(ob, workroot, keep=False):
         st = r.get('status')
         if d.startswith('WITNESS '):
             res['witnesses'][d[8:]] = (st == 'FAILURE')   # reachable
+        elif ob.get('unwind_assert_fn') and '.unwind.' in (r.get('property') or '') and not re.search(ob['unwind_assert_fn'], r.get('property')):
+            # unwinding assertions are requested for some functions only (the operation under test of a progress obligation: more
+            # iterations than the bound inside ONE uninterrupted turn is non-completion); the per-turn truncation of every other
+            # loop is the stated bound of the exploration, not a property
+            continue
         else:
             nprops += 1
             if st == 'FAILURE':
@@ -320,9 +325,13 @@ def _run_obligation(ob, workroot, keep=False):
         res['cfile'] = cfile
         first = None
         for f0 in cands:
-            cmd2 = cbmc_cmd(ob, cfile, extra=['--property', f0['property'], '--trace'], info=info)
+            if '.unwind.' in f0['property']:
+                # unwinding assertions are created during symbolic execution: --property cannot select them; take the trace from a full run
+                cmd2 = cbmc_cmd(ob, cfile, extra=['--trace'], info=info)
+            else:
+                cmd2 = cbmc_cmd(ob, cfile, extra=['--property', f0['property'], '--trace'], info=info)
             rc2, out2, err2, wall2 = sh(cmd2, timeout=ob.get('timeout', 600), mem_gb=ob.get('mem_gb', 12))
-            choices = extract_choices(out2)
+            choices = extract_choices(out2, f0['property'] if '.unwind.' in f0['property'] else None)
             if first is None:
                 first = (f0, choices)
             if choices is None:
@@ -355,8 +364,8 @@ def _run_obligation(ob, workroot, keep=False):
     return res
 
 
-def extract_choices(out):
-    """ordered list of nondeterministic choices from a cbmc --trace --json-ui output"""
+def extract_choices(out, prop=None):
+    """ordered list of nondeterministic choices from a cbmc --trace --json-ui output (of property prop when several traces are present)"""
     try:
         data = json.loads(out)
     except Exception:
@@ -366,6 +375,8 @@ def extract_choices(out):
         if 'result' not in item:
             continue
         for r in item['result']:
+            if prop is not None and r.get('property') != prop:
+                continue
             for st in r.get('trace', []) or []:
                 if st.get('stepType') == 'assignment' and st.get('lhs') == 'rt_choice_v' and not st.get('hidden'):
                     v = st.get('value', {})
